@@ -15,7 +15,7 @@ CHECK = {
     "srcs": [],                       # WrappableGrid.hpp / Grid.hpp are header-only
     "flavours": ["asan"],
     # watchdogs are sized for a machine shared with other checks (calibrated CPU time, all shards together:
-    # quick ~35 s; thorough ~250 s bounded-exhaustive + ~550 s random, i.e. < 1 min per shard on an idle
+    # quick ~70 s; thorough ~500 s bounded-exhaustive (int + uint8_t) + ~550 s random, i.e. < 1 min per shard on an idle
     # 16-core machine)
     "quick": {"shards": 8, "timeout": 1800},
     "thorough": {"shards": 16, "timeout": 14400},
@@ -24,15 +24,20 @@ CHECK = {
     # "rule") completely, which is not the stated scope, so it does not claim exhaustive.
     "exhaustive": _tier() == "thorough",
     "required_categories": ["exh2d_enum", "exh2d_bfs", "exh3d_bfs", "random_2d", "random_3d",
-                            "cells_int", "cells_double", "cells_string"],
+                            "cells_int", "cells_double", "cells_string",
+                            # other instantiations of the template: byte-sized and 2-byte cells
+                            "cells_uint8", "cells_int8", "cells_char", "cells_uint16",
+                            "exh_cells_int", "exh_cells_uint8"],
     "required_oracles": ["cells.survivors_keep_value", "cells.entrants_read_empty",
                          "offset.accumulated_mod_size"],
     "required_counters": ["states", "transitions", "bfs3d_transitions", "bfs2d_transitions", "enum2d_sequences",
+                          "exh_byte_cells_transitions",
                           "translation_after_nonzero_offset", "negative_z_with_survivors",
                           "offset_below_minus_n", "offset_nonzero_multiple_of_n", "offset_magnitude_above_n",
                           "writes", "written_cell_survived_translation"],
-    "rule": "case index < number of exhaustive units: one unit of the bounded-exhaustive part (int cells, pristine cells "
-            "hold unique ids, the empty value of the k-th translation of a history is -(10+k), per-axis offsets of every "
+    "rule": "case index < number of exhaustive units: one unit of the bounded-exhaustive part (every unit exists twice: "
+            "int cells and uint8_t cells; pristine cells hold unique ids (uint8: consecutive values modulo 240), the empty "
+            "value of the k-th translation of a history is -(10+k) (uint8: 240+k), per-axis offsets of every "
             "translation range over [-(n+1), n+1]); units are (a) exh2d_enum: every translation sequence on a 2D grid "
             "that starts with one given translation, by direct enumeration without de-duplication (quick: grids 1..3 "
             "cells/axis, <= 2 translations; thorough: grids 1..4, <= 3 translations), (b) exh2d_bfs: breadth-first search "
@@ -43,8 +48,9 @@ CHECK = {
             "others); the last expansion of a search is split in chunks (one unit each), counters 'states' = distinct states "
             "expanded, 'transitions' = translations executed and fully compared; 'exhaustive' (claimed by the thorough tier "
             "only, whose units cover the whole stated bounded scope) refers to this part. Remaining case indices: random histories from PRNG(seed, index): 2D/3D grids "
-            "of 1..8 cells/axis with int / double / std::string cells (strings beyond the small-string buffer, NaN, -0.0, "
-            "INT_MIN as values), 1..50 translations with per-axis offsets up to +-2n (uniform, small, single-axis, "
+            "of 1..8 cells/axis with int / double / std::string / uint8_t / int8_t / char / uint16_t cells (strings beyond the "
+            "small-string buffer, NaN, -0.0, INT_MIN, 0x00/0x7f/0x80/0xff as values; grids of byte cells are kept <= 240 cells by "
+            "shrinking the leading axes so that the 240 ids stay unambiguous, the last axis keeps sizes 1..8), 1..50 translations with per-axis offsets up to +-2n (uniform, small, single-axis, "
             "{0,+-1,+-(n-1),+-n,+-(n+1),+-(2n-1),+-2n}, all-negative), explicit / special / defaulted empty value, "
             "interleaved with bursts of operator() writes and occasional setValue; all cells and the reported offset are "
             "compared with the reference after EVERY operation.  Non-trivial = the history contains >= 2 translations "
@@ -53,7 +59,8 @@ CHECK = {
                   "(2D grids up to 4x4 and, in the thorough tier, 3D grids up to 3x3x3, up to 3 translations with per-axis "
                   "offsets in [-(n+1), n+1]; state-de-duplicated search over copies of the real object plus, for 2D, direct "
                   "enumeration) and through 3e3 (quick) / 5e5 (thorough) random histories of up to 50 translations and writes "
-                  "on grids up to 8 cells per axis with int, double and std::string cells; after every operation every cell "
+                  "on grids up to 8 cells per axis with int, double, std::string, uint8_t, int8_t, char and uint16_t cells (the bounded "
+                  "part is run for int and for uint8_t cells); after every operation every cell "
                   "and the reported offset are compared with a window-over-unbounded-map reference model; ASan+UBSan, "
                   "libstdc++ assertions and the library's asserts watch the same executions",
     "level_note": ASAN_NOTE + "; the bounded part is complete only for its stated scope (quick: reduced 3D scope), it is "
@@ -66,7 +73,8 @@ CHECK = {
                     "every cell is written before it is read (the statement does not cover never-written cells)",
                     "the behaviour of translate() is a function of the object's state (index offsets + buffer) and its "
                     "arguments only, which is what makes state de-duplication sound",
-                    "values are compared bitwise for double (NaN and -0.0 must come back), by == for int and std::string",
+                    "values are compared bitwise for double (NaN and -0.0 must come back), by == for the integral types and std::string",
+                    "bool cells are not covered: Grid<bool> does not compile (operator() returns T& into std::vector<bool>)",
                     "g++ 12 ASan+UBSan runtime; asserts live (no -DNDEBUG)"],
 }
 
